@@ -182,13 +182,23 @@ pub fn programs() -> Vec<Program> {
         p.threads = vec![vec![ups(1, Some(3), None)], vec![ups(1, Some(5), None)]];
         v.push(p);
     }
+    for (name, threads) in [
+        ("put(k)||put(k)||delete(k)", vec![vec![put(1, 2)], vec![put(1, 3)], vec![Op::Delete { k: 1 }]]),
+        ("put(k);delete(k)||put(k);upsert(k,w)", vec![vec![put(1, 2), Op::Delete { k: 1 }], vec![put(1, 3), ups(1, Some(4), None)]]),
+        ("put_ttl(k)||upsert(k,ttl)||{clock;tick}", vec![vec![put_ttl(1, 2, 1000)], vec![ups(1, Some(3), Some(9000))], vec![Op::Advance { ms: 3000 }, Op::Tick]]),
+    ] {
+        let mut p = base(name, 10);
+        p.threads = threads;
+        p.thorough_only = true;
+        v.push(p);
+    }
     v
 }
 
 pub fn def(ctx: &Ctx) -> PropertyDef {
     let quick = ctx.quick();
     let workers = ctx.workers;
-    let scenarios: Vec<Scenario> = programs()
+    let scenarios: Vec<Scenario> = for_tier(programs(), quick)
         .into_iter()
         .map(|p| {
             {
